@@ -3,6 +3,7 @@ C16, third part — what validation establishes about enum variants (the zone wh
 late: db73399, 08cc4d9, b5897ad), and the consequences for the expansion stage.
 -/
 import O2oModel.Props.C16b
+import O2oModel.WF
 namespace O2o
 
 /-- a message that one variant's pass of the member loop puts into the diagnostics is in `validate`'s result -/
@@ -360,5 +361,912 @@ theorem suf_all : ∀ fuel, SufAll fuel := by
     · intro fields named ctx cp depth
       unfold renderExistingChild
       exact Post.bind_any _ _ _ (fun _ => ihInner _ _ _ _)
+
+/-! ### the descent over a validated input -/
+
+theorem buildChildPathStr_length (ms : List Member) (acc : List String) :
+    (buildChildPathStr ms acc).length = ms.length + acc.length := by
+  induction ms generalizing acc with
+  | nil => simp [buildChildPathStr]
+  | cons m rest ih =>
+    cases acc with
+    | nil => simp [buildChildPathStr, ih]
+    | cons a as => simp [buildChildPathStr, ih]; omega
+
+/-- a child path as the parser builds it: one printed prefix per level, at least one level -/
+def ChildPath.WF (cp : ChildPath) : Prop := cp.strs.length = cp.path.length ∧ cp.path ≠ []
+
+theorem ofMembers_WF (m : Member) (ms : List Member) : (ChildPath.ofMembers (m :: ms)).WF := by
+  refine ⟨?_, by simp [ChildPath.ofMembers]⟩
+  simp [ChildPath.ofMembers, buildChildPathStr_length]
+
+theorem WF_pos (cp : ChildPath) (h : cp.WF) : 0 < cp.strs.length := by
+  rw [h.1]
+  cases hp : cp.path with
+  | nil => exact absurd hp h.2
+  | cons a as => simp
+
+/-- every level of the path has its `#[child_parents]` entry, when the conversion builds the nested structs (Into) -/
+def Decl (ctx : ImplContext) (cp : ChildPath) : Prop :=
+  cp.WF ∧ (ctx.kind.cls = .into → ∀ path ∈ cp.strs, childLevelMsg ctx.input.attrs ctx.ty path = none)
+
+/-- what the descent relies on for one entry of the grouped member list -/
+def GoodFC (ctx : ImplContext) (fc : FieldContainer) : Prop :=
+  match fc.fieldData with
+  | .field f => ∀ ca, f.attrs.child ctx.ty = some ca → Decl ctx ca.childPath
+  | .ghostData g => ∃ cp, g.childPath = some cp ∧ Decl ctx cp
+  | .parentChildField f pc => ctx.kind.isFrom = true → (f.ty.isSome = true ∧ ∀ i ∈ pc.subPath, i.2.isSome = true)
+
+/-- the shape a level is written in is never `Unit` outside From conversions -/
+def THok (ctx : ImplContext) (th : TypeHint) : Prop := ctx.kind.isFrom = false → th ≠ .unit
+
+/-- the level being rendered is a level of its path -/
+def FCok (fctx : FieldCtx) : Prop := ∀ cp cd d, fctx = some (cp, cd, d) → cp.WF ∧ d < cp.strs.length
+
+def hintOf (ctx : ImplContext) (fctx : FieldCtx) : TypeHint :=
+  match fctx with
+  | some (_, some crc, _) => crc.typeHint
+  | _ => ctx.structAttr.typeHint
+
+structure VCtx (s : String) (ctx : ImplContext) : Prop where
+  ok : CtxOK s ctx
+  hunit : ∀ ca ∈ ctx.input.attrs.childParentsAttrs, ∀ cd ∈ ca.childParents, cd.typeHint ≠ .unit
+  htop : THok ctx ctx.structAttr.typeHint
+
+/-- the sites a struct body can still stop at when the input is validated (and its child paths are well-formed): the four
+    listed findings -/
+def lineSites : List String := [
+  "expand.rs:render_struct_line:unreachable(6)",
+  "expand.rs:ApplicableAttr::get_ident:unreachable(8)",
+  "expand.rs:ApplicableAttr::get_ident:unreachable(18)",
+  "expand.rs:ApplicableAttr::get_ident:unreachable(19)"]
+
+theorem getStr_np_lt (s : String) (cp : ChildPath) (d : Nat) (h : d < cp.strs.length) : NP s (cp.getStr (some d)) := by
+  unfold ChildPath.getStr
+  simp only [List.getElem?_eq_getElem h]
+  exact NP.ok _ _
+
+theorem getStr_post (cp : ChildPath) (d : Nat) : Post (fun key => key ∈ cp.strs) (cp.getStr (some d)) := by
+  unfold ChildPath.getStr
+  simp only
+  split
+  · rename_i k hk
+    exact Post.ok _ _ (List.mem_of_getElem? hk)
+  · exact Post.error _ _
+
+theorem childLevelMsg_none (dta : DataTypeAttrs) (ty : TypePath) (path : String) (h : childLevelMsg dta ty path = none) :
+    ∃ cpa, dta.childParentsAttr ty = some cpa ∧ ∃ cd, cpa.childParents.find? (fun cd => cd.fieldPathStr == path) = some cd := by
+  unfold childLevelMsg at h
+  cases hc : dta.childParentsAttr ty with
+  | none => simp [hc] at h
+  | some cpa =>
+    simp only [hc] at h
+    refine ⟨cpa, rfl, ?_⟩
+    split at h
+    · cases h
+    · rename_i hany
+      simp only [Bool.not_eq_true', Bool.not_eq_false] at hany
+      have hany' : cpa.childParents.any (fun x => x.fieldPathStr == path) = true := by simpa using hany
+      cases hf : cpa.childParents.find? (fun cd => cd.fieldPathStr == path) with
+      | some cd => exact ⟨cd, rfl⟩
+      | none =>
+        rw [List.find?_eq_none] at hf
+        obtain ⟨x, hx, hxp⟩ := List.any_eq_true.mp hany'
+        exact absurd hxp (by simpa using hf x hx)
+
+theorem childParentsAttr_mem (dta : DataTypeAttrs) (ty : TypePath) (cpa : ChildParentsAttr) (h : dta.childParentsAttr ty = some cpa) :
+    cpa ∈ dta.childParentsAttrs := (findDedicatedOrDefault_some _ _ _ _ _ h).1
+
+section
+variable (s : String) (hA : ∀ site ∈ lineSites, site ≠ s)
+include hA
+
+theorem structLine_np_v (f : Field) (ctx : ImplContext) (hint : TypeHint) (idx : Nat) (hs : fieldSkipped ctx f = false) :
+    NP s (renderStructLine f ctx hint idx none) := by
+  intro h
+  rcases C16_struct_line_panics f ctx hint idx s hs h with h | h
+  · exact hA _ (by decide) h.symm
+  · exact hA _ (by decide) h.symm
+
+theorem parentLine_np_v (f : Field) (ctx : ImplContext) (hint : TypeHint) (idx : Nat) (pc : ParentChildField) :
+    NP s (renderStructLine f ctx hint idx (some pc)) := by
+  intro h
+  rcases C16_parent_line_panics f ctx hint idx pc s h with h | h
+  · exact hA _ (by decide) h.symm
+  · exact hA _ (by decide) h.symm
+
+omit hA in
+theorem wrapInit_np_v (ctx : ImplContext) (hint : TypeHint) (n : Bool) (fr : TS) (hth : THok ctx hint) : NP s (wrapInit ctx hint n fr) := by
+  unfold wrapInit
+  split
+  · exact NP.ok _ _
+  · split
+    · exact NP.ok _ _
+    · rename_i hnf
+      have hnf' : ctx.kind.isFrom = false := by simpa using hnf
+      split
+      · exact NP.ok _ _
+      · exact NP.ok _ _
+      · exact NP.ok _ _
+      · exact absurd rfl (hth hnf')
+
+omit hA in
+theorem levelBreak_np_v (fc : FieldCtx) (p : String) (hfc : FCok fc) : NP s (levelBreak fc p) := by
+  unfold levelBreak
+  split
+  · exact NP.bind _ _ _ (getStr_np_lt _ _ _ (hfc _ _ _ rfl).2) (fun _ => NP.pure _ _)
+  · exact NP.pure _ _
+
+omit hA in
+theorem structGhostLines_np_v (ctx : ImplContext) (fc : FieldCtx) (hok : GhostsOK s ctx.input.attrs.ghostsAttrs) (hfc : FCok fc) :
+    NP s (structGhostLines ctx fc) := by
+  unfold structGhostLines
+  split
+  · rename_i hk
+    have hk' : ctx.kind.isFrom = false := by simpa using hk
+    split
+    · rename_i ga hga
+      obtain ⟨x, hx, rfl⟩ := ghostsAttr_mem _ _ _ _ hga
+      apply NP.foldlM_mem
+      intro acc g hg
+      have hid := hok x hx g hg
+      split
+      · apply NP.bind
+        · unfold GhostData.getChildPathStr
+          split
+          · exact getStr_none_np _ _
+          · exact NP.ok _ _
+        · intro a
+          apply NP.bind _ _ _ (getStr_np_lt _ _ _ (hfc _ _ _ rfl).2)
+          intro b
+          split
+          · exact NP.bind _ _ _ (renderGhostLine_np_of _ _ _ hid hk') (fun _ => NP.pure _ _)
+          · exact NP.pure _ _
+      · exact NP.bind _ _ _ (renderGhostLine_np_of _ _ _ hid hk') (fun _ => NP.pure _ _)
+      · exact NP.pure _ _
+    · exact NP.pure _ _
+  · exact NP.pure _ _
+
+def BodyV (fuel : Nat) : Prop :=
+  (∀ members named ctx fctx, VCtx s ctx → (∀ fc ∈ members, GoodFC ctx fc) → THok ctx (hintOf ctx fctx) → FCok fctx →
+      NP s (structInitBlockInner fuel members named ctx fctx)) ∧
+  (∀ members named ctx fctx th frags idx, VCtx s ctx → (∀ fc ∈ members, GoodFC ctx fc) → THok ctx th → FCok fctx →
+      NP s (structInitLoop fuel members named ctx fctx th frags idx)) ∧
+  (∀ cp fields ctx depth th line, VCtx s ctx → (∀ fc ∈ fields, GoodFC ctx fc) → THok ctx th → Decl ctx cp → NP s (line ()) →
+      NP s (renderChildFragment fuel cp fields ctx depth th line)) ∧
+  (∀ field pc fields named ctx depth lh idx, VCtx s ctx → (∀ fc ∈ fields, GoodFC ctx fc) →
+      (ctx.kind.isFrom = true → (field.ty.isSome = true ∧ ∀ i ∈ pc.subPath, i.2.isSome = true)) →
+      NP s (renderParentChildFragment fuel field pc fields named ctx depth lh idx)) ∧
+  (∀ cd fields named ctx cp depth hint, VCtx s ctx → (∀ fc ∈ fields, GoodFC ctx fc) → THok ctx cd.typeHint → hint ≠ .unit →
+      cp.WF → depth < cp.strs.length → NP s (renderChild fuel cd fields named ctx cp depth hint)) ∧
+  (∀ fields named ctx cp depth, VCtx s ctx → (∀ fc ∈ fields, GoodFC ctx fc) → cp.WF → depth < cp.strs.length →
+      NP s (renderExistingChild fuel fields named ctx cp depth))
+
+theorem body_v : ∀ fuel, BodyV s fuel := by
+  intro fuel
+  induction fuel with
+  | zero =>
+    refine ⟨?_, ?_, ?_, ?_, ?_, ?_⟩
+    · intros; unfold structInitBlockInner; exact NP.error_unsupported _ _
+    · intros; unfold structInitLoop; exact NP.error_unsupported _ _
+    · intros; unfold renderChildFragment; exact NP.error_unsupported _ _
+    · intros; unfold renderParentChildFragment; exact NP.error_unsupported _ _
+    · intros; unfold renderChild; exact NP.error_unsupported _ _
+    · intros; unfold renderExistingChild; exact NP.error_unsupported _ _
+  | succ fuel ih =>
+    obtain ⟨ihInner, ihLoop, ihCF, ihPCF, ihChild, ihEx⟩ := ih
+    obtain ⟨sufInner, sufLoop, sufCF, sufPCF, sufChild, sufEx⟩ := suf_all fuel
+    refine ⟨?_, ?_, ?_, ?_, ?_, ?_⟩
+    · intro members named ctx fctx hv hgood hth hfc
+      rcases fctx with _ | ⟨cp, _ | crc, d⟩ <;>
+      · unfold structInitBlockInner
+        simp only []
+        simp only [hintOf] at hth
+        refine NP.bind _ _ _ (ihLoop _ _ _ _ _ _ _ hv hgood hth hfc) (fun _ => ?_)
+        refine NP.bind _ _ _ (structGhostLines_np_v s _ _ hv.ok.2 hfc) (fun _ => ?_)
+        exact NP.bind _ _ _ (wrapInit_np_v s _ _ _ _ hth) (fun _ => NP.pure _ _)
+    · intro members named ctx fctx th frags idx hv hgood hth hfc
+      unfold structInitLoop
+      cases members with
+      | nil => exact NP.ok _ _
+      | cons fc rest =>
+        simp only []
+        refine NP.bind _ _ _ (levelBreak_np_v s _ _ hfc) (fun brk => ?_)
+        have hfcg : GoodFC ctx fc := hgood fc List.mem_cons_self
+        have hrestg : ∀ x ∈ rest, GoodFC ctx x := fun x hx => hgood x (List.mem_cons_of_mem _ hx)
+        have hsufg : ∀ l : List FieldContainer, l <:+ (fc :: rest) → ∀ x ∈ l, GoodFC ctx x :=
+          fun l hl x hx => hgood x (hl.subset hx)
+        split
+        · exact NP.pure _ _
+        · split
+          · -- a member
+            rename_i f hfd
+            split
+            · exact ihLoop _ _ _ _ _ _ _ hv hrestg hth hfc
+            · rename_i hskip
+              have hskip' : fieldSkipped ctx f = false := by simpa using hskip
+              split
+              · rename_i ca hca
+                have hdecl : Decl ctx ca.childPath := by
+                  have := hfcg
+                  simp only [GoodFC, hfd] at this
+                  exact this ca hca
+                refine NP.bind_post _ _ _ _ (ihCF _ _ _ _ _ _ hv hgood hth hdecl (structLine_np_v s hA _ _ _ _ hskip'))
+                  (sufCF _ _ _ _ _ _) (fun a ha => ihLoop _ _ _ _ _ _ _ hv (hsufg _ ha) hth hfc)
+              · refine NP.bind _ _ _ (structLine_np_v s hA _ _ _ _ hskip') (fun _ => ihLoop _ _ _ _ _ _ _ hv hrestg hth hfc)
+          · -- a struct-level ghost entry: it has a child path, declared at every level
+            rename_i g hfd
+            have := hfcg
+            simp only [GoodFC, hfd] at this
+            obtain ⟨cp, hcp, hdecl⟩ := this
+            simp only [hcp]
+            refine NP.bind_post _ _ _ _ (ihCF _ _ _ _ _ _ hv hgood hth hdecl (NP.ok _ _))
+              (sufCF _ _ _ _ _ _) (fun a ha => ihLoop _ _ _ _ _ _ _ hv (hsufg _ ha) hth hfc)
+          · -- a nested member of a #[parent(..)] list
+            rename_i f pc hfd
+            have hty := hfcg
+            simp only [GoodFC, hfd] at hty
+            refine NP.bind _ _ _ (parentChildHint_np s _ _ hv.ok.1) (fun _ => ?_)
+            refine NP.bind_post _ _ _ _ (ihPCF _ _ _ _ _ _ _ _ hv hgood hty)
+              (sufPCF _ _ _ _ _ _ _ _) (fun a ha => ihLoop _ _ _ _ _ _ _ hv (hsufg _ ha) hth hfc)
+    · intro cp fields ctx depth th line hv hgood hth hdecl hline
+      unfold renderChildFragment
+      split
+      · rename_i hdeep
+        -- the level below exists: its index is inside the path
+        have hnd : nextDepth depth < cp.strs.length := by
+          have hpos := WF_pos cp hdecl.1
+          cases depth with
+          | none => simpa [nextDepth] using hpos
+          | some d =>
+            have : d < cp.strs.length - 1 := by simpa [deeperThan] using hdeep
+            simp only [nextDepth]; omega
+        split
+        · -- Into: the nested struct is built from its #[child_parents] entry
+          rename_i hcls
+          have hall := hdecl.2 hcls
+          have hnf : ctx.kind.isFrom = false := cls_not_from _ (Or.inl hcls)
+          split
+          · rename_i hnone
+            have hpos := WF_pos cp hdecl.1
+            obtain ⟨cpa, hcpa, _⟩ := childLevelMsg_none _ _ _ (hall (cp.strs[0]) (List.getElem_mem hpos))
+            rw [hcpa] at hnone
+            cases hnone
+          · rename_i cpa hcpa
+            refine NP.bind_post _ _ _ _ (getStr_np_lt _ _ _ hnd) (getStr_post _ _) (fun key hkey => ?_)
+            obtain ⟨cpa', hcpa', cd, hcd⟩ := childLevelMsg_none _ _ _ (hall key hkey)
+            rw [hcpa] at hcpa'
+            cases hcpa'
+            simp only [hcd]
+            have hcdm : cd ∈ cpa.childParents := List.mem_of_find?_eq_some hcd
+            have hcdu : cd.typeHint ≠ .unit := hv.hunit cpa (childParentsAttr_mem _ _ _ hcpa) cd hcdm
+            exact NP.bind _ _ _ (namedFields_np s _ hv.ok.1)
+              (fun _ => ihChild _ _ _ _ _ _ _ hv hgood (fun _ => hcdu) (hth hnf) hdecl.1 hnd)
+        · exact NP.bind _ _ _ (namedFields_np s _ hv.ok.1) (fun _ => ihEx _ _ _ _ _ hv hgood hdecl.1 hnd)
+        · exact NP.bind _ _ _ hline (fun _ => NP.pure _ _)
+      · exact NP.bind _ _ _ hline (fun _ => NP.pure _ _)
+    · intro field pc fields named ctx depth lh idx hv hgood hty
+      unfold renderParentChildFragment
+      split
+      · rename_i hcond
+        simp only [Bool.and_eq_true] at hcond
+        obtain ⟨hfty, hsub⟩ := hty hcond.2
+        have hwf : (ChildPath.ofMembers (field.member :: pc.subPath.map (·.1))).WF := ofMembers_WF _ _
+        have hlen : (ChildPath.ofMembers (field.member :: pc.subPath.map (·.1))).strs.length = pc.subPath.length + 1 := by
+          simp [ChildPath.ofMembers, buildChildPathStr_length]
+        have hnd : nextDepth depth < (ChildPath.ofMembers (field.member :: pc.subPath.map (·.1))).strs.length := by
+          rw [hlen]
+          cases depth with
+          | none => simp [nextDepth]
+          | some d =>
+            have : d < pc.subPath.length := by simpa [deeperThan] using hcond.1
+            simp only [nextDepth]; omega
+        refine NP.bind _ _ _ ?_ (fun _ => NP.bind _ _ _ (namedFields_np s _ hv.ok.1) (fun nm => ?_))
+        · split
+          · rename_i d
+            split
+            · exact NP.pure _ _
+            · rename_i m hget
+              have := hsub _ (List.mem_of_getElem? hget)
+              simp at this
+            · rename_i hnone
+              have hd : d < pc.subPath.length := by simpa [deeperThan] using hcond.1
+              simp [List.getElem?_eq_getElem hd] at hnone
+          · split
+            · exact NP.pure _ _
+            · rename_i hnone
+              simp [hnone] at hfty
+        · refine ihChild _ _ _ _ _ _ _ hv hgood (fun hnf => by simp [hcond.2] at hnf) ?_ hwf hnd
+          cases nm <;> simp
+      · exact NP.bind _ _ _ (parentLine_np_v s hA _ _ _ _ _) (fun _ => NP.ok _ _)
+    · intro cd fields named ctx cp depth hint hv hgood hcd hhint hwf hd
+      unfold renderChild
+      simp only []
+      refine NP.bind _ _ _ ?_ (fun _ => ?_)
+      · split
+        · exact NP.pure _ _
+        · rename_i hnone
+          have : depth < cp.path.length := by rw [← hwf.1]; exact hd
+          simp [List.getElem?_eq_getElem this] at hnone
+      · refine NP.bind _ _ _ (ihInner _ _ _ _ hv hgood (by simpa [hintOf] using hcd)
+          (fun cp' cd' d' h => by cases h; exact ⟨hwf, hd⟩)) (fun _ => ?_)
+        refine NP.bind _ _ _ (namedFields_np s _ hv.ok.1) (fun _ => ?_)
+        split <;> first | exact NP.pure _ _ | exact absurd rfl hhint
+    · intro fields named ctx cp depth hv hgood hwf hd
+      unfold renderExistingChild
+      refine NP.bind _ _ _ (getStr_np_lt _ _ _ hd) (fun key => ?_)
+      refine ihInner _ _ _ _ hv hgood ?_ (fun cp' cd' d' h => by cases h; exact ⟨hwf, hd⟩)
+      -- the shape of the level: its #[child_parents] entry (never `Unit`), else the counterpart's own
+      cases hb : ((ctx.input.attrs.childParentsAttr ctx.ty).bind fun x => x.childParents.find? (fun cd => cd.fieldPathStr == key)) with
+      | none => simpa [hintOf, hb] using hv.htop
+      | some cd =>
+        simp only [hintOf, hb, Option.map_some]
+        obtain ⟨cpa, hcpa, hfind⟩ := Option.bind_eq_some_iff.mp hb
+        intro _
+        exact hv.hunit cpa (childParentsAttr_mem _ _ _ hcpa) cd (List.mem_of_find?_eq_some hfind)
+end
+
+/-! ### where the entries of the grouped member list come from -/
+
+/-- the three origins of an entry of `groupedMembers` -/
+def FromInput (input : Struct) (ctx : ImplContext) (fc : FieldContainer) : Prop :=
+  (∃ x ∈ input.fields, fc.fieldData = .field x) ∨
+  (∃ g ∈ (input.attrs.ghostsAttr ctx.ty ctx.kind).toList.flatMap (·.ghostData), fc.fieldData = .ghostData g ∧ g.childPath.isSome = true) ∨
+  (∃ x ∈ input.fields, ∃ ps pc, (x.attrs.parameterizedParentAttr ctx.ty).bind (·.childFields) = some ps ∧ pc ∈ ps ∧
+      fc.fieldData = .parentChildField x pc)
+
+def GroupInvP (P : FieldContainer → Prop) (st : GroupPaths × List FieldContainer) : Prop :=
+  (st.1.find? (·.1 == "")).isSome = true ∧ ∀ fc ∈ st.2, P fc
+
+theorem groupedMembers_from (input : Struct) (ctx : ImplContext) (fc : FieldContainer) (h : fc ∈ groupedMembers input ctx) :
+    FromInput input ctx fc := by
+  unfold groupedMembers at h
+  have h0 : GroupInvP (FromInput input ctx) (([("", 0)], []) : GroupPaths × List FieldContainer) := ⟨by decide, by simp⟩
+  -- members
+  have hfield : ∀ (fs : List Field), (∀ x ∈ fs, x ∈ input.fields) → ∀ st, GroupInvP (FromInput input ctx) st →
+      GroupInvP (FromInput input ctx) (fs.foldl (fieldGroupStep ctx) st) := by
+    intro fs
+    induction fs with
+    | nil => intro _ st hst; exact hst
+    | cons x rest ih =>
+      intro hsub st hst
+      simp only [List.foldl_cons]
+      apply ih (fun y hy => hsub y (List.mem_cons_of_mem _ hy))
+      have hx : x ∈ input.fields := hsub x List.mem_cons_self
+      unfold fieldGroupStep
+      split
+      · rename_i ps hps
+        -- the nested fields of a #[parent(..)] list
+        have hpc : ∀ (qs : List ParentChildField), (∀ pc ∈ qs, pc ∈ ps) → ∀ st, GroupInvP (FromInput input ctx) st →
+            GroupInvP (FromInput input ctx) (qs.foldl (parentChildGroupStep x) st) := by
+          intro qs
+          induction qs with
+          | nil => intro _ st hst; exact hst
+          | cons pc qrest ihq =>
+            intro hqsub st hst
+            simp only [List.foldl_cons]
+            apply ihq (fun y hy => hqsub y (List.mem_cons_of_mem _ hy))
+            refine ⟨makeTuple_keeps_root _ _ _ hst.1, ?_⟩
+            intro fc' hfc'
+            simp only [parentChildGroupStep, List.mem_append, List.mem_singleton] at hfc'
+            rcases hfc' with hfc' | hfc'
+            · exact hst.2 fc' hfc'
+            · subst hfc'
+              exact Or.inr (Or.inr ⟨x, hx, ps, pc, hps, hqsub pc List.mem_cons_self, makeTuple_data _ _ _⟩)
+        exact hpc ps (fun _ h => h) st hst
+      · refine ⟨makeTuple_keeps_root _ _ _ hst.1, ?_⟩
+        intro fc' hfc'
+        simp only [List.mem_append, List.mem_singleton] at hfc'
+        rcases hfc' with hfc' | hfc'
+        · exact hst.2 fc' hfc'
+        · subst hfc'
+          exact Or.inl ⟨x, hx, makeTuple_data _ _ _⟩
+  -- struct-level ghosts
+  have hghost : ∀ (gs : List GhostData), (∀ g ∈ gs, g ∈ (input.attrs.ghostsAttr ctx.ty ctx.kind).toList.flatMap (·.ghostData)) →
+      ∀ st, GroupInvP (FromInput input ctx) st → GroupInvP (FromInput input ctx) (gs.foldl ghostGroupStep st) := by
+    intro gs
+    induction gs with
+    | nil => intro _ st hst; exact hst
+    | cons g rest ih =>
+      intro hsub st hst
+      simp only [List.foldl_cons]
+      apply ih (fun y hy => hsub y (List.mem_cons_of_mem _ hy))
+      unfold ghostGroupStep
+      refine ⟨makeTuple_keeps_root _ _ _ hst.1, ?_⟩
+      intro fc' hfc'
+      simp only [] at hfc'
+      split at hfc'
+      · rename_i hnew
+        simp only [List.mem_append, List.mem_singleton] at hfc'
+        rcases hfc' with hfc' | hfc'
+        · exact hst.2 fc' hfc'
+        · subst hfc'
+          refine Or.inr (Or.inl ⟨g, hsub g List.mem_cons_self, makeTuple_data _ _ _, ?_⟩)
+          cases hcp : g.childPath with
+          | some c => rfl
+          | none =>
+            exfalso
+            have hkey : ghostPathKey g = "" := by simp [ghostPathKey, hcp]
+            unfold makeTuple at hnew
+            rw [hkey] at hnew
+            cases hf : st.1.find? (·.1 == "") with
+            | none => have := hst.1; simp [hf] at this
+            | some v => simp [hf] at hnew
+      · exact hst.2 fc' hfc'
+  have h1 := hfield input.fields (fun _ h => h) _ h0
+  have h2 := hghost _ (fun _ h => h) _ h1
+  exact h2.2 fc (mem_sortByGr fc _ h)
+
+/-! ### nested parents carry their types (rule "Field 'x' should have type here") -/
+
+def nestedTypeMsg (i : Member × Option TS) : String :=
+  "Field '" ++ i.1.str ++ "' should have type here, e.g. '" ++ i.1.str ++ ": SomeStruct'"
+
+theorem validateParentAttrs_reports_type (named : Bool) (pas : List ParentAttr) (byKind : List (TraitAttrCore × Kind)) (es : Errors)
+    (pa : ParentAttr) (hpa : pa ∈ pas) (a : TraitAttrCore) (k : Kind) (hx : (a, k) ∈ byKind) (hk : k.isFrom = true)
+    (happ : pa.containerTy.isNone = true ∨ isSomeEq pa.containerTy a.ty = true)
+    (fs : List ParentChildField) (hfs : pa.childFields = some fs) (f : ParentChildField) (hf : f ∈ fs)
+    (i : Member × Option TS) (hi : i ∈ f.subPath) (hnone : i.2.isNone = true) :
+    nestedTypeMsg i ∈ validateParentAttrs named pas byKind es := by
+  unfold validateParentAttrs
+  refine mem_foldl_of_step _ _ _ _ pa hpa (fun pa' es hm => ?_) (fun es => ?_)
+  · -- any other #[parent] instruction keeps what was reported
+    have := ext_validateParentAttrs named [pa'] byKind es _ hm
+    simpa [validateParentAttrs] using this
+  · simp only
+    have hmem : (a, k) ∈ byKind.filter (fun (x : TraitAttrCore × Kind) => x.2.isFrom && (pa.containerTy.isNone || isSomeEq pa.containerTy x.1.ty)) := by
+      simp only [List.mem_filter, Bool.and_eq_true, Bool.or_eq_true]
+      exact ⟨hx, hk, happ⟩
+    refine mem_foldl_of_step _ _ _ _ (a, k) hmem (fun y es hm => ?_) (fun es => ?_)
+    · split
+      · refine mem_foldl_of_mem _ _ _ _ (fun f es hm => ?_) hm
+        refine mem_foldl_of_mem _ _ _ _ (fun i es hm => ?_) hm
+        split
+        · exact mem_insert_of_mem _ _ _ hm
+        · exact hm
+      · exact hm
+    · simp only [hfs]
+      refine mem_foldl_of_step _ _ _ _ f hf (fun f' es hm => ?_) (fun es => ?_)
+      · refine mem_foldl_of_mem _ _ _ _ (fun i es hm => ?_) hm
+        split
+        · exact mem_insert_of_mem _ _ _ hm
+        · exact hm
+      · refine mem_foldl_of_step _ _ _ _ i hi (fun i' es hm => ?_) (fun es => ?_)
+        · split
+          · exact mem_insert_of_mem _ _ _ hm
+          · exact hm
+        · simp only [hnone, if_true]
+          exact mem_insert_self _ _
+
+/-- C16 (site `sub_path[depth].1.unwrap()`, struct members): in a struct that validation accepts, every nested parent
+    of a `#[parent(..)]` list that a From conversion constructs carries its type -/
+theorem C16_nested_parent_types_struct (st : Struct) (hv : validate (.struct st) = []) (x : Field) (hxm : x ∈ st.fields)
+    (pa : ParentAttr) (hpa : pa ∈ x.attrs.parentAttrs) (a : TraitAttrCore) (k : Kind) (hx : (a, k) ∈ attrsByKind st.attrs)
+    (hk : k.isFrom = true) (happ : pa.containerTy.isNone = true ∨ isSomeEq pa.containerTy a.ty = true)
+    (fs : List ParentChildField) (hfs : pa.childFields = some fs) (f : ParentChildField) (hf : f ∈ fs)
+    (i : Member × Option TS) (hi : i ∈ f.subPath) : i.2.isSome = true := by
+  cases hn : i.2 with
+  | some t => rfl
+  | none =>
+    exfalso
+    have hmember : DataTypeMember.field x ∈ (DataType.struct st).members := by
+      simp only [DataType.members, List.mem_map]
+      exact ⟨x, hxm, rfl⟩
+    have : nestedTypeMsg i ∈ validate (.struct st) := by
+      unfold validate
+      simp only
+      apply ext_validateEnd
+      refine mem_foldl_of_step _ _ _ _ (DataTypeMember.field x) hmember
+        (fun y es hm => ext_validateMember _ _ _ _ y es _ hm) (fun es => ?_)
+      unfold validateMember
+      simp only
+      apply ext_validateMemberErrorInstrs
+      apply ext_parentTypePass
+      exact validateParentAttrs_reports_type _ _ _ _ pa hpa a k hx hk happ fs hfs f hf i hi (by simp [hn])
+    rw [hv] at this
+    cases this
+
+/-- .. and likewise for the payload members of the variants of an enum (since fix 7690954) -/
+theorem C16_nested_parent_types_variant (e : Enum) (hv : validate (.enum e) = []) (v : Variant) (hvm : v ∈ e.variants)
+    (x : Field) (hxm : x ∈ v.fields)
+    (pa : ParentAttr) (hpa : pa ∈ x.attrs.parentAttrs) (a : TraitAttrCore) (k : Kind) (hx : (a, k) ∈ attrsByKind e.attrs)
+    (hk : k.isFrom = true) (happ : pa.containerTy.isNone = true ∨ isSomeEq pa.containerTy a.ty = true)
+    (fs : List ParentChildField) (hfs : pa.childFields = some fs) (f : ParentChildField) (hf : f ∈ fs)
+    (i : Member × Option TS) (hi : i ∈ f.subPath) : i.2.isSome = true := by
+  cases hn : i.2 with
+  | some t => rfl
+  | none =>
+    exfalso
+    have : nestedTypeMsg i ∈ validate (.enum e) := by
+      apply variant_field_pass_reported e v hvm x hxm
+      intro es
+      apply ext_parentTypePass
+      exact validateParentAttrs_reports_type _ _ _ _ pa hpa a k hx hk happ fs hfs f hf i hi (by simp [hn])
+    rw [hv] at this
+    cases this
+
+/-! ### the entries of the grouped member list of a validated input are good -/
+
+theorem wf_iff (cp : ChildPath) : cp.wf = true ↔ cp.WF := by
+  unfold ChildPath.wf ChildPath.WF
+  cases hp : cp.path with
+  | nil => simp
+  | cons a as => simp
+
+theorem cls_into (k : Kind) (h : k.cls = .into) : k.isFrom = false ∧ k.isIntoExisting = false := by
+  refine ⟨cls_not_from _ (Or.inl h), ?_⟩
+  cases he : k.isIntoExisting with
+  | false => rfl
+  | true =>
+    have hf := cls_not_from _ (Or.inl h)
+    simp [Kind.cls, hf, he] at h
+
+/-- the `#[parent(..)]` instruction whose nested fields are rendered for this conversion -/
+theorem parameterized_parent (x : Field) (ty : TypePath) (ps : List ParentChildField)
+    (h : (x.attrs.parameterizedParentAttr ty).bind (·.childFields) = some ps) :
+    ∃ p ∈ x.attrs.parentAttrs, p.childFields = some ps ∧ (p.containerTy.isNone = true ∨ isSomeEq p.containerTy ty = true) := by
+  obtain ⟨p, hp, hps⟩ := Option.bind_eq_some_iff.mp h
+  obtain ⟨hmem, happ⟩ := findDedicatedOrDefault_some _ _ _ _ _ hp
+  exact ⟨p, hmem, hps, happ.symm⟩
+
+theorem parentNeedsType_of (byKind : List (TraitAttrCore × Kind)) (p : ParentAttr) (ps : List ParentChildField)
+    (hps : p.childFields = some ps) (a : TraitAttrCore) (k : Kind) (hx : (a, k) ∈ byKind) (hk : k.isFrom = true)
+    (happ : p.containerTy.isNone = true ∨ isSomeEq p.containerTy a.ty = true) : parentNeedsType byKind p = true := by
+  unfold parentNeedsType
+  simp only [hps, Option.isSome_some, Bool.true_and, List.any_eq_true]
+  refine ⟨(a, k), hx, ?_⟩
+  simp only [hk, Bool.true_and]
+  cases hc : p.containerTy with
+  | none => rfl
+  | some t =>
+    rcases happ with happ | happ
+    · simp [hc] at happ
+    · obtain ⟨t', ht', hte⟩ := (isSomeEq_iff _ _).mp happ
+      rw [hc] at ht'
+      cases ht'
+      exact (TypePath.beq_iff _ _).mpr hte.symm
+
+/-- a struct that validation accepts, with well-formed child paths: every entry of its grouped member list is good, for
+    every conversion the derive generates -/
+theorem goodFC_struct (st : Struct) (hv : validate (.struct st) = []) (hwf : (DataType.struct st).pathsWF = true)
+    (ctx : ImplContext) (hin : ctx.input = .struct st) (hby : (ctx.structAttr, ctx.kind) ∈ attrsByKind st.attrs)
+    (fc : FieldContainer) (hfc : fc ∈ groupedMembers st ctx) : GoodFC ctx fc := by
+  have hattrs : ctx.input.attrs = st.attrs := by rw [hin]; rfl
+  simp only [DataType.pathsWF, Bool.and_eq_true, List.all_eq_true] at hwf
+  rcases groupedMembers_from st ctx fc hfc with ⟨x, hx, hfd⟩ | ⟨g, hg, hfd, hsome⟩ | ⟨x, hx, ps, pc, hps, hpc, hfd⟩
+  · -- a member: its #[child] path
+    simp only [GoodFC, hfd]
+    intro ca hca
+    obtain ⟨hmem, _⟩ := findDedicatedOrDefault_some _ _ _ _ _ hca
+    have hxw := hwf.2 (.field x) (by simp only [DataType.members, List.mem_map]; exact ⟨x, hx, rfl⟩)
+    simp only [MemberAttrs.pathsWF, List.all_eq_true] at hxw
+    refine ⟨(wf_iff _).mp (hxw ca hmem), ?_⟩
+    intro hcls path hp
+    rw [hattrs]
+    exact C16_member_child_paths_declared st hv ctx.structAttr ctx.kind hby (cls_into _ hcls).1 (cls_into _ hcls).2 x hx ca hca path hp
+  · -- a struct-level ghost entry
+    simp only [GoodFC, hfd]
+    cases hcp : g.childPath with
+    | none => simp [hcp] at hsome
+    | some cp =>
+      refine ⟨cp, rfl, ?_, ?_⟩
+      · simp only [List.mem_flatMap, Option.mem_toList] at hg
+        obtain ⟨ga, hga, hgm⟩ := hg
+        obtain ⟨x, hxm, rfl⟩ := ghostsAttr_mem _ _ _ _ hga
+        have := hwf.1
+        simp only [ghostsPathsWF, List.all_eq_true] at this
+        have := this x hxm g hgm
+        simp only [hcp] at this
+        exact (wf_iff _).mp this
+      · intro hcls path hp
+        simp only [List.mem_flatMap, Option.mem_toList] at hg
+        obtain ⟨ga, hga, hgm⟩ := hg
+        rw [hattrs]
+        exact C16_ghost_child_paths_declared st hv ctx.structAttr ctx.kind hby (cls_into _ hcls).1 (cls_into _ hcls).2 ga hga g hgm cp hcp path hp
+  · -- a nested member of a #[parent(..)] list
+    simp only [GoodFC, hfd]
+    intro hfrom
+    obtain ⟨p, hpm, hpps, happ⟩ := parameterized_parent x ctx.ty ps hps
+    refine ⟨?_, ?_⟩
+    · apply C16_parent_member_has_type (.struct st) hv x (by simp only [DataType.members, List.mem_map]; exact ⟨x, hx, rfl⟩)
+      exact List.any_eq_true.mpr ⟨p, hpm, parentNeedsType_of _ p ps hpps ctx.structAttr ctx.kind hby hfrom happ⟩
+    · intro i hi
+      exact C16_nested_parent_types_struct st hv x hx p hpm ctx.structAttr ctx.kind hby hfrom happ ps hpps pc hpc i hi
+
+/-- the struct a variant is presented as -/
+def variantStructOf (v : Variant) : Struct :=
+  { attrs := { ghostsAttrs := v.attrs.ghostsAttrs }, ident := v.ident, generics := [],
+    fields := v.fields, namedFields := v.namedFields, unit := v.unit }
+
+/-- .. and likewise for every variant of an enum that validation accepts: its payload members are not flattened, its
+    ghosts are not addressed to nested structs, its `#[parent(..)]` lists are typed -/
+theorem goodFC_variant (e : Enum) (hv : validate (.enum e) = []) (v : Variant) (hvm : v ∈ e.variants)
+    (ctx : ImplContext) (hin : ctx.input = .struct (variantStructOf v))
+    (a : TraitAttrCore) (hby : (a, ctx.kind) ∈ attrsByKind e.attrs) (hty : ctx.ty = a.ty)
+    (fc : FieldContainer) (hfc : fc ∈ groupedMembers (variantStructOf v) ctx) : GoodFC ctx fc := by
+  rcases groupedMembers_from _ ctx fc hfc with ⟨x, hx, hfd⟩ | ⟨g, hg, hfd, hsome⟩ | ⟨x, hx, ps, pc, hps, hpc, hfd⟩
+  · simp only [GoodFC, hfd]
+    intro ca hca
+    obtain ⟨hmem, _⟩ := findDedicatedOrDefault_some _ _ _ _ _ hca
+    have hnone := C16_variant_field_no_child e hv v hvm x hx
+    rw [hnone] at hmem
+    cases hmem
+  · exfalso
+    simp only [List.mem_flatMap, Option.mem_toList] at hg
+    obtain ⟨ga, hga, hgm⟩ := hg
+    obtain ⟨y, hym, rfl⟩ := ghostsAttr_mem _ _ _ _ hga
+    have := C16_variant_ghost_no_child_path e hv v hvm y hym g hgm
+    simp [this] at hsome
+  · simp only [GoodFC, hfd]
+    intro hfrom
+    obtain ⟨p, hpm, hpps, happ⟩ := parameterized_parent x ctx.ty ps hps
+    rw [hty] at happ
+    refine ⟨?_, ?_⟩
+    · apply C16_variant_field_parent_type e hv v hvm x hx
+      exact List.any_eq_true.mpr ⟨p, hpm, parentNeedsType_of _ p ps hpps a ctx.kind hby hfrom happ⟩
+    · intro i hi
+      exact C16_nested_parent_types_variant e hv v hvm x hx p hpm a ctx.kind hby hfrom happ ps hpps pc hpc i hi
+
+/-- `struct_init_block` over good entries: only the four listed sites of the member lines remain -/
+theorem structInitBlock_np_v (s : String) (hA : ∀ site ∈ lineSites, site ≠ s) (input : Struct) (ctx : ImplContext)
+    (hok : CtxOK s ctx) (hunit : ∀ ca ∈ ctx.input.attrs.childParentsAttrs, ∀ cd ∈ ca.childParents, cd.typeHint ≠ .unit)
+    (hgood : ∀ fc ∈ groupedMembers input ctx, GoodFC ctx fc) : NP s (structInitBlock input ctx) := by
+  unfold structInitBlock
+  split
+  · exact NP.pure _ _
+  · rename_i hguard
+    have htop : THok ctx ctx.structAttr.typeHint := by
+      intro hnf hu
+      apply hguard
+      simp [hnf, hu]
+    have hv : VCtx s ctx := ⟨hok, hunit, htop⟩
+    exact NP.bind _ _ _ ((body_v s hA _).1 _ _ _ _ hv hgood (by simpa [hintOf] using htop)
+      (fun cp cd d h => by cases h)) (fun _ => NP.pure _ _)
+
+/-! ### the expansion of a validated input -/
+
+/-- the sites at which the expansion of a validated input (with parser-built child paths) can stop: exactly the five
+    listed findings -/
+def findingSites : List String := lineSites ++ ["expand.rs:render_enum_line:todo"]
+
+theorem implContexts_facts (input : DataType) (ctx : ImplContext) (hctx : ctx ∈ implContexts input) :
+    ctx.input = input ∧ (ctx.structAttr, ctx.kind) ∈ attrsByKind input.attrs := by
+  unfold implContexts at hctx
+  simp only [List.mem_flatMap, List.mem_map] at hctx
+  obtain ⟨⟨k, fl⟩, hkf, sa, hsa, rfl⟩ := hctx
+  refine ⟨rfl, ?_⟩
+  simp only
+  unfold attrsByKind
+  have hk : k ∈ kindOrderInto := by
+    simp only [implPasses, List.mem_cons, Prod.mk.injEq, List.mem_nil_iff, or_false] at hkf
+    rcases hkf with ⟨rfl, _⟩ | ⟨rfl, _⟩ | ⟨rfl, _⟩ | ⟨rfl, _⟩ | ⟨rfl, _⟩ | ⟨rfl, _⟩ | ⟨rfl, _⟩ | ⟨rfl, _⟩ | ⟨rfl, _⟩ | ⟨rfl, _⟩ | ⟨rfl, _⟩ | ⟨rfl, _⟩ <;> decide
+  cases fl with
+  | false => exact List.mem_append_left _ (List.mem_flatMap.mpr ⟨k, hk, List.mem_map.mpr ⟨sa, hsa, rfl⟩⟩)
+  | true => exact List.mem_append_right _ (List.mem_flatMap.mpr ⟨k, hk, List.mem_map.mpr ⟨sa, hsa, rfl⟩⟩)
+
+section
+variable (s : String) (hF : ∀ site ∈ findingSites, site ≠ s)
+include hF
+
+theorem hF_line : ∀ site ∈ lineSites, site ≠ s := fun site h => hF site (List.mem_append_left _ h)
+
+theorem variant_body_v (e : Enum) (hv : validate (.enum e) = []) (v : Variant) (hvm : v ∈ e.variants) (nctx : ImplContext)
+    (hin : nctx.input = .struct (variantStructOf v)) (a : TraitAttrCore) (hby : (a, nctx.kind) ∈ attrsByKind e.attrs)
+    (hty : nctx.ty = a.ty) (hok : GhostsOK s v.attrs.ghostsAttrs) : NP s (structInitBlock (variantStructOf v) nctx) := by
+  refine structInitBlock_np_v s (hF_line s hF) _ nctx ⟨by simp [DataType.isEnum, hin], by rw [hin]; exact hok⟩ ?_
+    (fun fc hfc => goodFC_variant e hv v hvm nctx hin a hby hty fc hfc)
+  rw [hin]
+  intro ca hca
+  cases hca
+
+theorem renderEnumLine_v (e : Enum) (hv : validate (.enum e) = []) (v : Variant) (hvm : v ∈ e.variants) (ctx : ImplContext)
+    (hby : (ctx.structAttr, ctx.kind) ∈ attrsByKind e.attrs) (hc : variantContributes ctx v = true) :
+    NP s (renderEnumLine v ctx) := by
+  have hok : GhostsOK s v.attrs.ghostsAttrs := by
+    intro ga hga g hg
+    obtain ⟨m, hm⟩ := C16_site_16_variant e hv v hvm ga hga g hg
+    rw [hm]; exact NP.ok _ _
+  unfold renderEnumLine
+  simp only []
+  refine NP.bind _ _ _ ?_ (fun destr => NP.bind _ _ _ ?_ (fun init => ?_))
+  · repeat' (first | exact variantDestructBlock_np s _ _ hok | np_step)
+  · repeat' (first
+      | exact variant_body_v s hF e hv v hvm _ rfl ctx.structAttr hby rfl hok
+      | np_step)
+  · split
+    · exact NP.pure _ _
+    · rename_i a hattr _ _ hcls
+      have hfrom := cls_from _ hcls
+      have hng : ∀ g, a ≠ .ghost g := fun g hg => C16_variant_not_ghost_from ctx v hfrom hc g (hg ▸ hattr)
+      refine NP.bind _ _ _ (getActionOr_np _ _ _ _ _) (fun _ => NP.bind _ _ _ ?_ (fun _ => NP.pure _ _))
+      cases a with
+      | ghost g => exact absurd rfl (hng g)
+      | field c => simp only [ApplicableAttr.getFieldNameOr]; exact NP.ok _ _
+      | parentChildField p k => exact absurd hattr (applicableAttr_not_pc _ _ _ _ p k)
+    · rename_i a hattr _ _ hcls
+      have hnf := cls_not_from _ (Or.inl hcls)
+      refine NP.bind _ _ _ ?_ (fun _ => NP.pure _ _)
+      apply getStuff_np_of
+      intro g hg
+      subst hg
+      have hgl := (applicableAttr_ghost_iff _ _ _ _ g).mp hattr
+      simp only [variantContributes, hnf, ghostNoDefault, hgl, Bool.false_and, Bool.not_false, Bool.true_and] at hc
+      simpa using hc
+    · exact NP.pure _ _
+    · exact NP.pure _ _
+    · exact NP.pure _ _
+    · exact NP.bind _ _ _ (getActionOr_np _ _ _ _ _) (fun _ => NP.pure _ _)
+    · exact NP.panicAt _ _ (hF _ (by decide))
+
+theorem enumInitBlock_v (e : Enum) (hv : validate (.enum e) = []) (ctx : ImplContext)
+    (hby : (ctx.structAttr, ctx.kind) ∈ attrsByKind e.attrs) : NP s (enumInitBlock e ctx) := by
+  unfold enumInitBlock
+  refine NP.bind _ _ _ ?_ (fun _ => NP.bind _ _ _ ?_ (fun _ => NP.pure _ _))
+  · apply NP.foldlM_mem
+    intro acc v hvm
+    unfold enumArmStep
+    split
+    · rename_i hc
+      exact NP.bind _ _ _ (renderEnumLine_v s hF e hv v hvm ctx hby hc) (fun _ => NP.pure _ _)
+    · exact NP.pure _ _
+  · apply NP.foldlM_mem
+    intro acc g hg
+    refine NP.bind _ _ _ ?_ (fun _ => NP.pure _ _)
+    unfold enumGhostData at hg
+    split at hg
+    · rename_i ga hga
+      obtain ⟨x, hx, rfl⟩ := ghostsAttr_mem _ _ _ _ hga
+      obtain ⟨ts, hts⟩ := C16_site_17_unreachable e hv x hx g hg ctx
+      rw [hts]; exact NP.ok _ _
+    · simp at hg
+
+/-- the body of one conversion of a validated input -/
+theorem body_of_validated (input : DataType) (hv : validate input = []) (hwf : input.pathsWF = true) (ctx : ImplContext)
+    (hin : ctx.input = input) (hby : (ctx.structAttr, ctx.kind) ∈ attrsByKind input.attrs) :
+    (∀ st, ctx.input = .struct st → NP s (structInitBlock st ctx)) ∧ (∀ e, ctx.input = .enum e → NP s (enumInitBlock e ctx)) := by
+  refine ⟨?_, ?_⟩
+  · intro st hst
+    have hi : input = .struct st := by rw [← hin]; exact hst
+    subst hi
+    refine structInitBlock_np_v s (hF_line s hF) st ctx ⟨by simp [DataType.isEnum, hst], ?_⟩ ?_
+      (fun fc hfc => goodFC_struct st hv hwf ctx hst hby fc hfc)
+    · rw [hst]
+      intro ga hga g hg
+      obtain ⟨m, hm⟩ := C16_site_16_struct st hv ga hga g hg
+      rw [hm]; exact NP.ok _ _
+    · rw [hst]
+      exact fun ca hca cd hcd => C16_child_hint_not_unit (.struct st) hv ca hca cd hcd
+  · intro e he
+    have hi : input = .enum e := by rw [← hin]; exact he
+    subst hi
+    exact enumInitBlock_v s hF e hv ctx hby
+
+theorem mainCodeBlock_v (input : DataType) (hv : validate input = []) (hwf : input.pathsWF = true) (ctx : ImplContext)
+    (hin : ctx.input = input) (hby : (ctx.structAttr, ctx.kind) ∈ attrsByKind input.attrs) : NP s (mainCodeBlock ctx) := by
+  obtain ⟨hS, hE⟩ := body_of_validated s hF input hv hwf ctx hin hby
+  unfold mainCodeBlock
+  split
+  · exact NP.ok _ _
+  · split
+    · rename_i st hst
+      unfold structMainCodeBlock
+      refine NP.bind _ _ _ (hS st hst) (fun _ => ?_)
+      split <;> exact NP.pure _ _
+    · rename_i e he
+      unfold enumMainCodeBlock
+      refine NP.bind _ _ _ (hE e he) (fun _ => ?_)
+      split <;> exact NP.pure _ _
+
+theorem mainCodeBlockOk_v (input : DataType) (hv : validate input = []) (hwf : input.pathsWF = true) (ctx : ImplContext)
+    (hin : ctx.input = input) (hby : (ctx.structAttr, ctx.kind) ∈ attrsByKind input.attrs) : NP s (mainCodeBlockOk ctx) := by
+  obtain ⟨hS, hE⟩ := body_of_validated s hF input hv hwf ctx hin hby
+  unfold mainCodeBlockOk
+  split
+  · exact NP.ok _ _
+  · refine NP.bind _ _ _ ?_ (fun _ => by split <;> exact NP.pure _ _)
+    split
+    · rename_i st hst
+      unfold structMainCodeBlock
+      refine NP.bind _ _ _ (hS st hst) (fun _ => ?_)
+      split <;> exact NP.pure _ _
+    · rename_i e he
+      unfold enumMainCodeBlock
+      refine NP.bind _ _ _ (hE e he) (fun _ => ?_)
+      split <;> exact NP.pure _ _
+
+omit hF in
+/-- `struct_post_init` never reaches its `todo!()` on a validated input: no variant carries `#[parent]` -/
+theorem postInitOf_v (input : DataType) (hv : validate input = []) (ctx : ImplContext) : NP s (postInitOf input ctx) := by
+  unfold postInitOf
+  split
+  · exact NP.pure _ _
+  · rename_i hcond
+    have hnf : ctx.kind.isFrom = false := by
+      cases hf : ctx.kind.isFrom with
+      | false => rfl
+      | true => simp [hf] at hcond
+    unfold structPostInit
+    refine NP.bind _ _ _ ?_ (fun _ => ?_)
+    · apply NP.foldlM_mem
+      intro acc m hm
+      split
+      · rename_i hpar
+        split
+        · exact NP.bind _ _ _ (renderParent_np s _ _ hnf) (fun _ => NP.pure _ _)
+        · rename_i v
+          exfalso
+          cases input with
+          | struct st =>
+            simp only [DataType.members, List.mem_map] at hm
+            obtain ⟨f, _, hf⟩ := hm
+            cases hf
+          | enum e =>
+            simp only [DataType.members, List.mem_map] at hm
+            obtain ⟨v', hv', hve⟩ := hm
+            injection hve with hve
+            subst hve
+            have := C16_variant_no_parent e hv v' hv'
+            simp [DataTypeMember.attrs, MemberAttrs.hasParameterlessParentAttr, this] at hpar
+      · exact NP.pure _ _
+    · split <;> exact NP.pure _ _
+
+theorem quoteTrait_v (input : DataType) (hv : validate input = []) (hwf : input.pathsWF = true) (ctx : ImplContext)
+    (hctx : ctx ∈ implContexts input) : NP s (quoteTrait input ctx) := by
+  obtain ⟨hin, hby⟩ := implContexts_facts input ctx hctx
+  have herr : ctx.fallible = true → NP s (errTyPath ctx) := by
+    intro hf
+    obtain ⟨ts, hts⟩ := C16_err_ty_sites_unreachable input ctx hv hctx hf
+    rw [hts]; exact NP.ok _ _
+  unfold quoteTrait
+  simp only []
+  refine NP.bind _ _ _ (postInitOf_v s input hv ctx) (fun pi => ?_)
+  split <;>
+    repeat' (first
+      | exact mainCodeBlock_v s hF input hv hwf _ hin hby
+      | exact mainCodeBlockOk_v s hF input hv hwf _ hin hby
+      | exact herr (by assumption)
+      | np_step)
+end
+
+/-- **C16 (validated inputs, the whole expansion stage).** For every parsed input that validation accepts and whose child
+    paths are as the parser builds them (`pathsWF`: a decidable test the driver evaluates on every input of the
+    correspondence run), generating the impls either succeeds, or reports exhausted fuel, or stops at one of the *five
+    listed findings*: `unreachable!("6")`, `("8")`, `("18")`, `("19")` of the member lines, and the `todo!()` of
+    `render_enum_line`. No other `unwrap()`, `unreachable!`, `todo!()`, `panic!` or index of `expand.rs`, `attr.rs` or
+    `ast.rs` can be reached. -/
+theorem C16_validated_only_findings (input : DataType) (hv : validate input = []) (hwf : input.pathsWF = true) (s : String)
+    (h : dataTypeImpls input = .error (.panic s)) : s ∈ findingSites := by
+  by_cases hm : s ∈ findingSites
+  · exact hm
+  exfalso
+  have hF : ∀ site ∈ findingSites, site ≠ s := fun site hs e => hm (e ▸ hs)
+  revert h
+  show NP s _
+  unfold dataTypeImpls
+  exact mapM_np_mem s _ _ (fun ctx hctx => quoteTrait_v s hF input hv hwf ctx hctx)
+
+/-- the list is the list of the findings kept in `KNOWN_FINDINGS.json`, and each is a row of the regenerated inventory -/
+example : findingSites = ["expand.rs:render_struct_line:unreachable(6)", "expand.rs:ApplicableAttr::get_ident:unreachable(8)",
+    "expand.rs:ApplicableAttr::get_ident:unreachable(18)", "expand.rs:ApplicableAttr::get_ident:unreachable(19)",
+    "expand.rs:render_enum_line:todo"] ∧ findingSites.all (fun x => modelledLabels.contains x) = true := ⟨rfl, by decide⟩
+
+/-- non-vacuity: `#[into(A)] #[child_parents(p: P)] struct S { #[child(p)] a: i32, b: i32 }` as a parsed input — it is
+    accepted by validation, its child path is well-formed, and a flattened member is exactly what the closed sites are about -/
+def exFlatStruct : DataType :=
+  let ta : TypePath := { path := [Tok.ident "A"], pathStr := "A", generics := none, namelessTuple := false }
+  let tp : TypePath := { path := [Tok.ident "P"], pathStr := "P", generics := none, namelessTuple := false }
+  .struct {
+    attrs := {
+      attrs := [{ core := { ty := ta, errTy := none, typeHint := .unspecified }, fallible := false,
+                  appl := [true, true, false, false, false, false] }],
+      childParentsAttrs := [{ containerTy := none, childParents := [{ ty := tp.path, typeHint := .unspecified, fieldPath := [Member.named "p"], fieldPathStr := "p" }] }] },
+    ident := "S", generics := [],
+    fields := [
+      { attrs := { childAttrs := [{ containerTy := none, childPath := ChildPath.ofMembers [Member.named "p"] }] },
+        idx := 0, member := .named "a", memberStr := "a", ty := none },
+      { attrs := {}, idx := 1, member := .named "b", memberStr := "b", ty := none }],
+    namedFields := true, unit := false }
+
+example : validate exFlatStruct = [] ∧ exFlatStruct.pathsWF = true := by decide
 
 end O2o
